@@ -90,7 +90,7 @@ def build_ocaml():
     srcs = [os.path.join(VERIF, "ocaml", f) for f in os.listdir(os.path.join(VERIF, "ocaml"))
             if f.endswith((".ml", ".v", ".sh")) and f not in ("model.ml",)]
     vos = [os.path.join(COQ, f) for f in os.listdir(COQ) if f.endswith(".vo")]
-    targets = [os.path.join(BUILD, t) for t in ("flatrun", "treerun", "indexrun", "rorun")]
+    targets = [os.path.join(BUILD, t) for t in ("flatrun", "treerun", "indexrun", "rorun", "crashrun", "codecrun")]
     if all(os.path.exists(t) for t in targets) and \
             min(os.path.getmtime(t) for t in targets) > newest_mtime(srcs + vos):
         return True, "up to date"
@@ -327,7 +327,13 @@ def sig_child_existence(case, mis):
         not any(k.startswith("tmodel:") for k in mis["kinds"])
 
 
-SIGNATURES = {"nilmerge-iter": sig_nilmerge_iter, "zero-gauges-child-existence": sig_child_existence}
+def sig_first_round(case, mis):
+    """Crash before the very first persistence round completed: the directory holds a data file
+    without any footer and cannot be opened (expected: open as empty)."""
+    return "spec:first-round-unopenable" in mis["kinds"] and not any(k.startswith("model:") for k in mis["kinds"])
+
+
+SIGNATURES = {"first-round-unopenable": sig_first_round, "nilmerge-iter": sig_nilmerge_iter, "zero-gauges-child-existence": sig_child_existence}
 
 
 def match_known(pid, case, mis, known):
